@@ -17,13 +17,13 @@ func init() {
 			"D3 overlap enumeration — the source range is [old.LowerBound(i)·scale, old.LowerBound(i+1)·scale), the target loop starts at new.Index(lower) and continues while new.LowerBound(out) < upper, the weight sent is count·(min(outHi,inHi) − max(outLo,inLo))/(inHi − inLo) and goes to the target store at the loop's own index. "+
 			"D4 no negative weight — on every path reaching the target AddWithCount the overlap size (numerator of the proportion) is established positive or non-negative by a dominating comparison with 0 (or clamped with max(0,·)); count > 0 and inHi − inLo > 0 are axioms (ForEach yields positive weights; LowerBound is increasing and scale > 0). "+
 			"D5 exact statistics are rescaled by the factor — the exact variant's ChangeMapping returns {inner.ChangeMapping(…, scale), a Copy() of the statistics rescaled exactly once by that same scale} and never writes the receiver's statistics; SummaryStatistics.Rescale scales sum and compensation, orders min/max by the sign of the factor and never touches the count (C10-D1/D3 obligations re-evaluated here). "+
-			"SHARED (obligations of other properties that decide clauses this property states too, re-evaluated here under their home rule ids): C19-D2/D3 (Equals of the mappings, on which the identity shortcut rests). C14-D2 (the identity shortcut returns Copy(): every Copy defines every field — bin limits and flags included — and is deep). C15-D1 for every store (the target stores are the caller's and may be recycled with Clear: a cleared store takes the converted bins like a new one). C03-D1/D2 (Index of every mapping kind is floor(log_like(v)·multiplier + indexOffset) and LowerBound / Value invert exactly that term — the general path starts at newMapping.Index of the first old bound and walks LowerBound of both mappings, so a target mapping with a non-zero offset is placed correctly). "+
+			"SHARED (obligations of other properties that decide clauses this property states too, re-evaluated here under their home rule ids): C04-D1/D2/D3/D5/D6/D9 and C05-D8 (the add side of every store: the converted weights are counted at the indexes they are added with). C19-D2/D3 (Equals of the mappings, on which the identity shortcut rests). C14-D2 (the identity shortcut returns Copy(): every Copy defines every field — bin limits and flags included — and is deep). C15-D1 for every store (the target stores are the caller's and may be recycled with Clear: a cleared store takes the converted bins like a new one). C03-D1/D2 (Index of every mapping kind is floor(log_like(v)·multiplier + indexOffset) and LowerBound / Value invert exactly that term — the general path starts at newMapping.Index of the first old bound and walks LowerBound of both mappings, so a target mapping with a non-zero offset is placed correctly). "+
 			"NOT DECIDED: conservation of total weight up to rounding, the combined accuracy bound, rank distance.",
 		"one obligation per ChangeMapping path, per overlap term, per path reaching the weighted add",
 		false, runC17)
 	register("C11",
 		"DECIDED (the clause 'never a value from an empty side of the sketch'): on every CFG path on which GetValueAtQuantile answers from the negative store, that store is known non-empty — either by an explicit emptiness/total test, or because the path took `rank < negative.TotalCount()` with a rank that is a non-negative constant or passed a `rank ≥ 0` test on the same path (so TotalCount() > rank ≥ 0). D2–D5 (shared obligations re-evaluated for weighted histories): AddWithCount forwards the weight unchanged to the side the value belongs to (C01-D1); the rank is q·(W−1) over the total weight and split between the sides by their totals (C01-D2); every store's KeyAtRank selects the first bin whose cumulative weight strictly exceeds the rank in index order (C01-D3); DDSketch.Reweight scales the zero weight and both stores by the same factor (C16-D1). "+
-			"SHARED (obligations of other properties that decide clauses this property states too, re-evaluated here under their home rule ids): C02-D1 (weights also arrive by merging: zero weight and both sides merged on every accepting path). C16-D2 (every store body scales everything it holds) and the exact variant's Reweight wrapper as C11-D6 (the statistics are reweighted — not rescaled — with the same factor after the inner sketch). C10-D4 (the exact variant clamps every single and every batch answer into [exact min, exact max], element by element). C06-D3 (decoding into a sketch only accumulates: the zero weight and the bins of a sketch assembled from encoded parts are the sums of the parts). C14-D2 for the two sketch types (a copy shares neither stores nor statistics with its original). C12-D1 (GetMinValue / GetMaxValue answer from the correct end of the correct side in the documented order). The exact variant's AddWithCount wrapper as C11-D7 (the inner sketch absorbs the value with the given weight — its quantiles stay the weighted ones). C12-D4 (the batch quantile query stores exactly the single-query answer per element). "+
+			"SHARED (obligations of other properties that decide clauses this property states too, re-evaluated here under their home rule ids): C04-D1/D2/D3/D5/D6/D9 and C05-D8 (the add side of every store: a weight is counted in the bin of its index). C02-D1 (weights also arrive by merging: zero weight and both sides merged on every accepting path). C16-D2 (every store body scales everything it holds) and the exact variant's Reweight wrapper as C11-D6 (the statistics are reweighted — not rescaled — with the same factor after the inner sketch). C10-D4 (the exact variant clamps every single and every batch answer into [exact min, exact max], element by element). C06-D3 (decoding into a sketch only accumulates: the zero weight and the bins of a sketch assembled from encoded parts are the sums of the parts). C14-D2 for the two sketch types (a copy shares neither stores nor statistics with its original). C12-D1 (GetMinValue / GetMaxValue answer from the correct end of the correct side in the documented order). The exact variant's AddWithCount wrapper as C11-D7 (the inner sketch absorbs the value with the given weight — its quantiles stay the weighted ones). C12-D4 (the batch quantile query stores exactly the single-query answer per element). "+
 			"NOT DECIDED: 'within one unit of weight of q·(W−1)', 'within alpha of an absorbed value', and emptiness of the positive side on the final branch (needs the relational fact rank ≤ count−1).",
 		"one obligation per path answering from the negative store",
 		false, runC11)
@@ -38,6 +38,8 @@ func runC17(c *Ctx) {
 	c17Table(c, a)
 	c17Untouched(c, a)
 	c17Overlap(c, a)
+	// the converted weights are added to new stores through their entry points: the add side of every store kind
+	c.shared(func() { c04AddPaths(c) }, func(o *Obligation) bool { return true })
 	// exact variant: the statistics of the result are a copy rescaled once by the same factor; Rescale's field table
 	c10Wrappers(c, a, "C17-D5", "ChangeMapping")
 	c10StatObject(c, a, "C17-D5", "Rescale")
@@ -511,6 +513,8 @@ func runC11(c *Ctx) {
 	c.shared(func() { c06Additive(c, a) }, func(o *Obligation) bool { return true })
 	// a copy answers from its own weights and extremes, whatever happens to the original afterwards
 	c.shared(func() { c14Copies(c, a) }, keyMentions("DDSketch"))
+	// a weight is counted in the bin of its index, in every store kind: the add side of the stores
+	c.shared(func() { c04AddPaths(c) }, func(o *Obligation) bool { return true })
 	// weights also arrive by merging: the sketch merge adds the zero weight and both sides on every accepting path
 	// (a shortcut for an argument without bins drops the weight of its zero bucket)
 	c.shared(func() { c02MergeTable(c, a) }, func(o *Obligation) bool { return true })
